@@ -159,14 +159,27 @@ class VLoop(asyncio.BaseEventLoop):
         return list(self.exc_records)
 
     def shutdown(self) -> None:
-        """Drop everything without running it."""
-        for t in list(asyncio.all_tasks(self)):
-            t._log_destroy_pending = False
+        """End of an execution (after the verdict): unwind what is left so nothing lingers."""
+        try:
+            for _ in range(5):
+                pending = [t for t in asyncio.all_tasks(self) if not t.done()]
+                if not pending:
+                    break
+                for t in pending:
+                    t._log_destroy_pending = False
+                    t.cancel()
+                for j in list(self.jobs):
+                    if not j.fut.done():
+                        j.fut.cancel()
+                self.jobs.clear()
+                self.run_ready(limit=20000)
+        except BaseException:  # noqa: BLE001
+            pass
+        self.exc_records.clear()
         self._ready.clear()
         self._scheduled.clear()
         self.jobs.clear()
         self.leave()
-        # do not call close(): BaseEventLoop.close touches the default executor only
         try:
             self.close()
         except Exception:  # noqa: BLE001
